@@ -205,11 +205,6 @@ func run(ctx *core.Ctx) error {
 
 	// 3. render every history >= 3 ways, open it with the real reader
 	variants := ctx.Pick(3, 8)
-	type job struct {
-		c      histCase
-		expect [][3]int
-		tr     int
-	}
 	var jobs []job
 	for i, gc := range hcases {
 		for v := 0; v < variants; v++ {
@@ -224,10 +219,95 @@ func run(ctx *core.Ctx) error {
 		h := randomHistory(rng, 5, 3+rng.Intn(2))
 		jobs = append(jobs, job{c: histCase{"hist", h, rng.Int63(), rng.Int63()}})
 	}
+	st := &histStats{seenKey: map[string]int{}}
+	if err := processJobs(ctx, jobs, st); err != nil {
+		return err
+	}
+	ctx.Ev.AddReplayed(len(hcases) * variants)
+	ctx.Logf("histories: %d table cases x %d renderings + %d random executed on pdf.NewReader; %d table mismatches; %d files have the F11 layout",
+		len(hcases), variants, nrand, st.mismatches, st.triggers)
+	ctx.Ev.Set("histories_in_table", len(hcases))
+	ctx.Ev.Set("renderings_per_history", variants)
+	ctx.Ev.Set("random_histories", nrand)
+	if len(hcases) > 0 {
+		ctx.Ev.Sample(map[string]any{"kind": "table line of Gen_XRefHistory", "case": hcases[len(hcases)/2]})
+	}
+
+	// thorough: every history of exactly 3 revisions over 3 objects (the
+	// harness enumerates them; TLC re-checks that each is one the standard
+	// allows and judges the answers), one seeded rendering each
+	if ctx.Thorough() {
+		var chunk []job
+		n3 := 0
+		var perr error
+		flush := func() {
+			if perr == nil && len(chunk) > 0 {
+				perr = processJobs(ctx, chunk, st)
+			}
+			chunk = chunk[:0]
+		}
+		enumerate(3, 3, func(h history) {
+			n3++
+			s := ctx.Seed*7_000_003 + int64(n3)
+			chunk = append(chunk, job{c: histCase{"hist", h, s*2 + 1, s}})
+			if len(chunk) >= 60000 {
+				flush()
+			}
+		})
+		flush()
+		if perr != nil {
+			return perr
+		}
+		ctx.Ev.Set("histories_3_revisions_enumerated", n3)
+		ctx.Logf("histories: all %d histories of 3 revisions x 3 objects executed on pdf.NewReader", n3)
+	}
+	ctx.Ev.Set("files_with_subsection_1_first_entry_65535", st.triggers)
+	for _, k := range core.SortedKeys(st.seenKey) {
+		ctx.Logf("rejected records of class %s: %d", k, st.seenKey[k])
+	}
+	fileRecs := st.fileRecs
+
+	// 4. P-D: rendered files as seen by the strict parser, judged by PdfFile!WellFormed
+	if len(fileRecs) > 0 {
+		badf, err := core.JudgeCases(ctx, tlcOpts(), fileRecs, 10, 8)
+		if err != nil {
+			return err
+		}
+		if len(badf) > 0 {
+			return core.Infra("PdfFile!WellFormed rejects %d of %d files of the serialiser that strict.WellFormed accepts (trusted observers disagree with the specification)", len(badf), len(fileRecs))
+		}
+	}
+
+	// 5. the /Length clause
+	if err := runLengths(ctx, bcases); err != nil {
+		return err
+	}
+	ctx.Ev.Exhaustive = true
+	ctx.Ev.Set("exhaustive_scope", "all histories of the bounded model ("+cfg+") in TLC; all histories of Gen_XRefHistory (<=2 revisions x 3 objects) on the real reader; "+
+		"all bodies of <= MaxPieces pieces x every declared length; seeded renderings and random histories beyond")
+	return nil
+}
+
+// job is one rendering of one history; expect is the line of the table (nil
+// for histories that only TLC judges).
+type job struct {
+	c      histCase
+	expect [][3]int
+	tr     int
+}
+
+type histStats struct {
+	mismatches, triggers int
+	seenKey              map[string]int
+	fileRecs             []map[string]any
+	sampled              bool
+}
+
+// processJobs renders, observes and judges a batch of histories.
+func processJobs(ctx *core.Ctx, jobs []job, st *histStats) error {
 	recs := make([]histRecord, len(jobs))
 	mismatch := make([]bool, len(jobs))
 	trig := make([]bool, len(jobs))
-	var fileRecs []map[string]any
 	var mu sync.Mutex
 	var first error
 	parallel(len(jobs), 16, func(i int) {
@@ -262,12 +342,11 @@ func run(ctx *core.Ctx) error {
 		}
 		if i%997 == 0 {
 			mu.Lock()
-			if len(fileRecs) < ctx.Pick(40, 200) {
-				fileRecs = append(fileRecs, map[string]any{"t": "file", "file": strict.ToJSON(f)})
+			if len(st.fileRecs) < ctx.Pick(40, 120) {
+				st.fileRecs = append(st.fileRecs, map[string]any{"t": "file", "file": strict.ToJSON(f)})
 			}
 			mu.Unlock()
 		}
-		// the table
 		if jobs[i].expect != nil {
 			mismatch[i] = tableMismatch(rec, jobs[i].expect, jobs[i].tr)
 		}
@@ -276,25 +355,15 @@ func run(ctx *core.Ctx) error {
 	if first != nil {
 		return first
 	}
-	ntab := len(hcases) * variants
-	ctx.Ev.AddReplayed(ntab)
-	nmis, ntrig := 0, 0
 	for i := range jobs {
 		if mismatch[i] {
-			nmis++
+			st.mismatches++
 		}
 		if trig[i] {
-			ntrig++
+			st.triggers++
 		}
 	}
-	ctx.Logf("histories: %d table cases x %d renderings + %d random executed on pdf.NewReader; %d table mismatches; %d files have the F11 layout",
-		len(hcases), variants, nrand, nmis, ntrig)
-	ctx.Ev.Set("histories_in_table", len(hcases))
-	ctx.Ev.Set("renderings_per_history", variants)
-	ctx.Ev.Set("random_histories", nrand)
-	ctx.Ev.Set("files_with_subsection_1_first_entry_65535", ntrig)
-
-	bad, err := core.JudgeCases(ctx, tlcOpts(), recs, 1500, 8)
+	bad, err := core.JudgeCases(ctx, tlcOpts(), recs, 2000, ctx.Pick(8, 14))
 	if err != nil {
 		return err
 	}
@@ -307,36 +376,13 @@ func run(ctx *core.Ctx) error {
 			return core.Infra("harness and specification disagree: table mismatch for %s (seed %d) is accepted by Trace_XRefHistory", jobs[i].c.H.key(), jobs[i].c.RSeed)
 		}
 	}
-	seenKey := map[string]int{}
 	for _, b := range bad {
-		reportHist(ctx, jobs[b].c, seenKey)
+		reportHist(ctx, jobs[b].c, st.seenKey)
 	}
-	for _, k := range core.SortedKeys(seenKey) {
-		ctx.Logf("rejected records of class %s: %d", k, seenKey[k])
-	}
-	if len(recs) > 0 {
+	if !st.sampled && len(recs) > 0 {
+		st.sampled = true
 		ctx.Ev.Sample(map[string]any{"kind": "history rendered by indep/ser, read by pdf.NewReader, judged by Trace_XRefHistory", "record": recs[len(recs)/3]})
-		ctx.Ev.Sample(map[string]any{"kind": "table line of Gen_XRefHistory", "case": hcases[len(hcases)/2]})
 	}
-
-	// 4. P-D: rendered files as seen by the strict parser, judged by PdfFile!WellFormed
-	if len(fileRecs) > 0 {
-		badf, err := core.JudgeCases(ctx, tlcOpts(), fileRecs, 10, 8)
-		if err != nil {
-			return err
-		}
-		if len(badf) > 0 {
-			return core.Infra("PdfFile!WellFormed rejects %d of %d files of the serialiser that strict.WellFormed accepts (trusted observers disagree with the specification)", len(badf), len(fileRecs))
-		}
-	}
-
-	// 5. the /Length clause
-	if err := runLengths(ctx, bcases); err != nil {
-		return err
-	}
-	ctx.Ev.Exhaustive = true
-	ctx.Ev.Set("exhaustive_scope", "all histories of the bounded model ("+cfg+") in TLC; all histories of Gen_XRefHistory (<=2 revisions x 3 objects) on the real reader; "+
-		"all bodies of <= MaxPieces pieces x every declared length; seeded renderings and random histories beyond")
 	return nil
 }
 
